@@ -248,7 +248,7 @@ impl<'a, const BITS: usize, const LIMBS: usize> FromSql<'a> for Uint<BITS, LIMBS
                     raw
                 };
                 let str = from_utf8(raw)?;
-                let str = if str.starts_with('"') && str.ends_with('"') {
+                let str = if str.len() >= 2 && str.starts_with('"') && str.ends_with('"') {
                     // Stringified number
                     &str[1..str.len() - 1]
                 } else {
